@@ -252,6 +252,16 @@ def t_masks(D, N):
                 return False, f"low_pass_filter_mask({D},{N},cutoff={cut}) at wavenumber {k}: {bool(m[idx])}"
             if bool(mr[idx]) != (sum(kc * kc for kc in k) <= cut * cut) and abs(sum(kc * kc for kc in k) - cut * cut) > 0:
                 return False, f"radial low_pass_filter_mask({D},{N},cutoff={cut}) at wavenumber {k}: {bool(mr[idx])}"
+    # a negative cutoff (as in the band-pass idiom low - 1 with low = 0) selects nothing, per axis and radially; fractional cutoffs
+    for cut in (-1, -2.5, 0.5, 1.5, (N // 2) - 0.5):
+        m = np.asarray(sp.low_pass_filter_mask(D, N, cutoff=cut))[0]
+        mr = np.asarray(sp.low_pass_filter_mask(D, N, cutoff=cut, axis_separate=False))[0]
+        for idx, k in modes:
+            if bool(m[idx]) != all(abs(kc) <= cut for kc in k):
+                return False, f"low_pass_filter_mask({D},{N},cutoff={cut}) at wavenumber {k}: {bool(m[idx])}"
+            r2 = sum(kc * kc for kc in k)
+            if bool(mr[idx]) != (cut >= 0 and r2 <= cut * cut) and abs(r2 - cut * cut) > 1e-9:
+                return False, f"radial low_pass_filter_mask({D},{N},cutoff={cut}) at wavenumber {k}: {bool(mr[idx])}"
     ob = np.asarray(sp.oddball_filter_mask(D, N))[0]
     for idx, k in modes:
         if bool(ob[idx]) != (not (N % 2 == 0 and any(abs(kc) == N // 2 for kc in k))):
